@@ -357,8 +357,46 @@ def search_first(interp, lo, hi, cond_at, label="search"):
     return None
 
 
+def _quant_generators(interp, e, gens, env, want_all):
+    """any/all(elt for .. in .. if .. for .. in .. if ..): nested quantifiers, one bound variable per level"""
+    from .interp import Env
+    ctx = interp.ctx
+    comp = gens[0]
+    it = interp.eval(comp.iter, env)
+    lo, hi, elem, items = iter_info(interp, it)
+
+    def inner(x):
+        cenv = Env(env.globs, env)
+        interp.assign(comp.target, x, cenv)
+        cond = True
+        for c in comp.ifs:
+            cond = And(cond, interp.truth_term(interp.eval(c, cenv)))
+        if cond is False:
+            return cond, want_all
+        return cond, (_quant_generators(interp, e, gens[1:], cenv, want_all) if len(gens) > 1 else interp.truth_term(interp.eval(e.elt, cenv)))
+    if items is not None:
+        r = want_all
+        for x in items:
+            c, t = inner(x)
+            r = And(r, Implies(c, t)) if want_all else Or(r, And(c, t))
+        return r
+    j = z3.Const(f"qj!{ctx.uid()}", I)
+    ctx.solver.push()
+    ctx.solver.add(zbool(rng(lo, j, hi)))
+    try:
+        with Pure(ctx):
+            c, t = inner(j)
+    finally:
+        ctx.solver.pop()
+    if want_all:
+        return z3.ForAll([j], z3.Implies(zbool(And(rng(lo, j, hi), c)), zbool(t)))
+    return z3.Exists([j], zbool(And(rng(lo, j, hi), c, t)))
+
+
 def b_any(interp, g, want_all=False):
     ctx = interp.ctx
+    if isinstance(g, GenExp) and len(g.node.generators) > 1:
+        return _quant_generators(interp, g.node, g.node.generators, g.env, want_all)
     if isinstance(g, GenExp):
         lo, hi, items, at = gen_terms(interp, g)
         if items is not None:
